@@ -36,10 +36,11 @@ const (
 	OrgAST
 	OrgGlobal
 	OrgHarness
+	OrgPool // handed to a sync.Pool: belongs to whichever call gets it next
 )
 
 func (o Origin) String() string {
-	return [...]string{"call", "doc", "ast", "global", "harness"}[o]
+	return [...]string{"call", "doc", "ast", "global", "harness", "pooled"}[o]
 }
 
 type FloatCls uint8
